@@ -8,32 +8,33 @@ ENTRY = dict(
         theorems=["c04_exact_complete", "c04_no_zero", "c04_count_sum", "c04_unbiased", "c04_infinite",
                   "c04_refuses", "c04_machine_refines_spec", "c04_final_sort", "c04_never_crashes", "c04_always_served",
                   "c04_one_draw_bridge", "c04_n_draw_bridge", "c04_sampler_unbiased", "c04_public_wrapper",
-                  "c04_public_refuses", "c04_facts"],
+                  "c04_public_refuses", "c04_count_general", "c04_sum_deficit_visited", "c04_weights_positive", "c04_tape_law",
+                  "c04_public_all", "c04_public_total", "c04_facts"],
         allowed_axioms=[],
         facts=["nonzero_atol"],
         harness="c04",
         level_text="Unbounded theorems (any number of bases and maps, every family of sorting permutations = every tie order, every "
-                   "admissible answer tape of numpy.random.choice) about the executable model of qpd/weights.py over exact rationals: "
-                   "every joint map with p >= 1/N is EXACT with weight N*p (N <= 1e14); no returned key has probability zero; infinite "
-                   "budget = exactly the maps with p >= 1e-14, weight p; N < 1 / NaN / -inf refused; the weights sum to at most N with a "
-                   "deficit bounded by N*1e-14*(#prefixes+1), and to N exactly with at most ceil(N) entries when no input or table "
-                   "entry lies in the cut-off band (0,1e-14]; for EVERY joint map the expected weight (expectation functional using only "
-                   "E[count_i]=n*p_i) equals N*p under the same hypothesis (telescoping product of the renormalised tables; the "
-                   "single-leftover shortcut included); the line-by-line step machine of the DFS generator, run with fuel "
-                   "2*(#prefixes)+2, yields the sequence of the recursive specification for all inputs (numbers up to Qeq); the public "
-                   "function's final sort is a sorted rearrangement with distinct keys. Closed under the global context. The model "
-                   "contains the repaired behaviour of finding F9. Model (specification AND step machine, permutation wrapper, weights, "
-                   "draw-tape sampler, expectation functional, final sort) is run against the implementation on >1000 generated cases "
-                   "per run, the sequence of generator yields included; for samples_needed<=3 every answer sequence of the oracle is "
-                   "enumerated. Totality: on valid input, any sorting permutations and any admissible tape the model never answers "
-                   "Crashed (all remaining asserts unreachable) and, when every basis has an entry above the cut-off, N>=1 is served. "
-                   "The link between the tape sampler `populate` and the expectation functional `ecount` is proved for EVERY number of "
-                   "draws (c04_n_draw_bridge: summing over all oracle tapes, weighted by the product of the probabilities the code "
-                   "passed to numpy.random.choice, the tape law has mass 1 and the expected count of a joint map is ecount), hence "
-                   "c04_sampler_unbiased: the expectation over all tapes of count*single_sample_weight returned by the real sampling "
-                   "loop is N*p -- unbiasedness follows from O-choice alone. The public wrapper generate_qpd_weights (probabilities "
-                   "|c|/kappa from the coefficients, core, stable sort) is modelled and all theorems transfer through "
-                   "c04_public_wrapper (kappa <> 0).",
+                   "admissible answer tape of numpy.random.choice) about the executable model of qpd/weights.py over exact rationals. "
+                   "PROVED: every joint map with p >= 1/N is EXACT with weight N*p (N <= 1e14); no returned key has probability zero and "
+                   "every weight is > 0; at most ceil(N) entries for every valid input without an entry bit-equal to 1e-14 (sub-cut-off "
+                   "entries, zeroed table entries and the repaired F9 branch included; c04_count_general); sum <= N with deficit <= "
+                   "N*1e-14*(#prefixes of the full tree+1), and outside the all-exact branch <= N*1e-14*(#entries of the tables actually "
+                   "popped); sum == N exactly when no input/table entry lies in (0,1e-14] (no_entry_in_cutoff); infinite budget = "
+                   "exactly the maps with p >= 1e-14, weight p; N<1/NaN/-inf refused; totality (never Crashed; served when every "
+                   "basis has an entry above the cut-off); the line-by-line step machine yields the specification's sequence (numbers "
+                   "up to Qeq); the final sort is a sorted rearrangement with distinct keys. TAIL: the tape law of the sampler is a "
+                   "probability law and an admissible tape exists, with no cut-off hypothesis (c04_tape_law); for every number of "
+                   "draws the expectation over all oracle tapes of the sample counts equals the functional ecount "
+                   "(c04_n_draw_bridge); under no_entry_in_cutoff and N <= 1e14 the expectation over all tapes of the weight in the "
+                   "RETURNED dictionary is N*p (c04_sampler_unbiased), and the functional expected_weight is N*p for every joint map "
+                   "with the success of the call discharged (c04_unbiased). PUBLIC: generate_qpd_weights (probabilities |c|/kappa, "
+                   "core, stable sort) is modelled; c04_public_all states every clause through it, c04_public_total totality. "
+                   "NOT PROVED: a bias bound for the tail when the cut-off zeroes a table entry (only the aggregate sum deficit); "
+                   "binary64 effects and QPDBasis.probabilities in floats (correspondence only). Closed under the global context. The "
+                   "model contains the repaired behaviour of finding F9. Model (specification AND step machine, permutation wrapper, "
+                   "weights, draw-tape sampler, expectation functional, final sort, public wrapper) is run against the implementation "
+                   "on >1000 generated cases per run, the sequence of generator yields included; for samples_needed<=3 every answer "
+                   "sequence of the oracle is enumerated.",
         level_note=STD_NOTE + "No axioms. Modelling assumptions: O-choice (numpy.random.choice(range(n),k,p) returns k indices, each of "
                    "positive probability; E[count_i]=k*p_i; different calls independent) -- the support part is monitored on every case, "
                    "the law enters only through the expectation functional; np.argsort(cp)[::-1] returns SOME descending permutation "
@@ -44,7 +45,10 @@ ENTRY = dict(
             "implementation with dyadic inputs under a 53-bit mantissa budget on which binary64 is exact, argued in harness/c04.py and "
             "re-checked by exact comparison of Fraction(float) with the model's Q)",
             "the cut-off 1e-14 is read from weights.py on every run (Extracted/Facts.v nonzero_atol)",
-            "hypothesis no_entry_in_cutoff (c04_count_sum exactness clause, c04_unbiased): every input entry is 0 or > 1e-14 "
+            "hypothesis kinds: valid/in_range/kappa<>0 = input preconditions; sorting_perms_b = argsort contract (oracle, monitored); "
+            "`gen_weights ... = Some (Ok r)` = admissible tape (oracle support contract; satisfiable by c04_tape_law); "
+            "no_entry_in_cutoff / no_entry_at_cutoff = restrictions INSIDE the property's quantifier, see below",
+            "hypothesis no_entry_in_cutoff (exact-sum clause of c04_count_sum, c04_unbiased, c04_sampler_unbiased): every input entry is 0 or > 1e-14 "
             "(observation O2: an entry bit-equal to the cut-off is ignored by the all-exact test but still emitted, so the entry count can "
             "exceed ceil(N)), and no raw conditional-table entry of the DFS lies in (0,1e-14]; otherwise the mass lost is bounded as stated",
             "hypothesis N <= 1e14 (atol*N <= 1) in c04_exact_complete/c04_count_sum/c04_unbiased: beyond it the all-exact branch "
